@@ -232,6 +232,7 @@ class World:
         self.uuid_counter = 0
         self.lib = None
         self.real_openql = False
+        self.rebuild_gate_on = False
         self.taps = None
         self.boot_get_registry_at = None
 
@@ -300,6 +301,7 @@ class World:
         else:
             self._install_fake_openql()
         self._install_taps()
+        self._install_rebuild_gate()
         self._collect_process_state()
         gc.disable()
         gc.collect()
@@ -373,6 +375,23 @@ class World:
         with self.fs._real_open(os.path.join(work_dir, "platform.json"), "w") as f:
             json.dump(cfg, f, indent=4)
         os.makedirs(os.path.join(work_dir, "out"), exist_ok=True)
+
+    def _install_rebuild_gate(self):
+        """Fault point inside flatten's rebuild loop (one call per re-placed operation): lets the scheduler make
+        the n-th placement fail, i.e. an exception in the middle of an in-place rebuild."""
+        cgb = self.lib.CircuitGraphBranch
+        if cgb is None or "add_to_graph" not in vars(cgb):
+            return
+        raw = vars(cgb)["add_to_graph"]
+        real = raw.__func__ if isinstance(raw, staticmethod) else raw
+        w = self
+
+        def gated_add_to_graph(*a, **k):
+            if w.rebuild_gate_on:
+                w.gate("graph.add")
+            return real(*a, **k)
+
+        cgb.add_to_graph = staticmethod(gated_add_to_graph)
 
     def _install_taps(self):
         """Observation taps around the drawing (harness side, call through unchanged)."""
